@@ -376,6 +376,11 @@ def _literals(e):
         while isinstance(x, ast.UnaryOp) and isinstance(x.op, ast.Not):
             pol = not pol
             x = x.operand
+        # `a != b` is the atom `a == b` negated (likewise `is not`, `not in`): one atom however it is spelt
+        if isinstance(x, ast.Compare) and len(x.ops) == 1 and isinstance(x.ops[0], (ast.NotEq, ast.IsNot, ast.NotIn)):
+            pos = {ast.NotEq: ast.Eq, ast.IsNot: ast.Is, ast.NotIn: ast.In}[type(x.ops[0])]()
+            y = ast.Compare(left=x.left, ops=[pos], comparators=x.comparators)
+            return (norm(y), not pol, y)
         return (norm(x), pol, x)
     if isinstance(e, ast.BoolOp):
         return ('and' if isinstance(e.op, ast.And) else 'or'), [lit(v) for v in e.values]
@@ -466,6 +471,11 @@ def feasible_reach(cfg, start, target, avoid=(), max_states=20000):
             for k in list(val):
                 if any(_mentions(k, d) for d in ds):
                     del val[k]
+            # `x = <constant>`: the truth of the atom `x` is known afterwards
+            a = n.ast
+            if n.kind == 'stmt' and isinstance(a, ast.Assign) and len(a.targets) == 1 and isinstance(a.targets[0], ast.Name) and \
+                    isinstance(a.value, ast.Constant) and not isinstance(a.value.value, (str, bytes)):
+                val[a.targets[0].id] = bool(a.value.value)
         for s, lab in n.succs:
             if s in avoid:
                 continue
